@@ -14,7 +14,7 @@ PKG = 'src/dtaidistance'
 CDIR = 'src/DTAIDistanceC/DTAIDistanceC'
 
 BUILTINS = {'len', 'min', 'max', 'abs', 'int', 'float', 'range', 'tuple', 'list', 'print', 'str',
-            'tqdm'}
+            'tqdm', 'divmod'}
 
 
 class FuncInfo:
